@@ -74,8 +74,13 @@ func buildNetHTTP(cs *caseState, sp godi.Provider, useChi bool) http.Handler {
 	mChain := func(k *TCtrl, w http.ResponseWriter, r *http.Request) { look(r).onChain(k) }
 	if useChi {
 		var so []godichi.Option
-		if o.ErrH != ErrHDefault {
+		if o.ErrH == ErrHNil {
+			so = append(so, godichi.WithErrorHandler(nil))
+		} else if o.ErrH != ErrHDefault {
 			so = append(so, godichi.WithErrorHandler(errH))
+		}
+		if o.CloseH == "nil-option" {
+			so = append(so, godichi.WithCloseErrorHandler(nil))
 		}
 		if o.CloseH == "custom" {
 			so = append(so, godichi.WithCloseErrorHandler(closeH))
@@ -102,8 +107,13 @@ func buildNetHTTP(cs *caseState, sp godi.Provider, useChi bool) http.Handler {
 		hT1, hT2 = godichi.Handle(mChain, godichi.WithPanicRecovery(o.Recovery)), godichi.Handle(mChain, godichi.WithPanicRecovery(o.Recovery))
 	} else {
 		var so []godihttp.Option
-		if o.ErrH != ErrHDefault {
+		if o.ErrH == ErrHNil {
+			so = append(so, godihttp.WithErrorHandler(nil))
+		} else if o.ErrH != ErrHDefault {
 			so = append(so, godihttp.WithErrorHandler(errH))
+		}
+		if o.CloseH == "nil-option" {
+			so = append(so, godihttp.WithCloseErrorHandler(nil))
 		}
 		if o.CloseH == "custom" {
 			so = append(so, godihttp.WithCloseErrorHandler(closeH))
